@@ -131,6 +131,26 @@ def polygon_boundary(P, rep, rule="POLY.boundary"):
                       witness="a vertex of a descending (resp. ascending) chain of the polygon")
     else:
         rep.ok(rule, "upward and downward edges share one on-segment test (%d lines)" % len(forms[0]), F.nloc(online[0]), F.qn)
+    # the crossings are counted with sign (winding number): +1 on an upward, -1 on a downward crossing, inside iff != 0
+    counters = {}
+    for y in F.walk():
+        if y.get("k") == "UnaryOperator" and y.get("op") in ("++", "--") and sc(y["c"][0]).get("k") == "DeclRefExpr":
+            counters.setdefault(sc(y["c"][0])["r"], []).append(y.get("op"))
+        if y.get("k") == "CompoundAssignOperator" and y.get("op") in ("+=", "-=") and sc(y["c"][0]).get("k") == "DeclRefExpr" and sc(y["c"][1]).get("v") == 1:
+            counters.setdefault(sc(y["c"][0])["r"], []).append("++" if y["op"] == "+=" else "--")
+    wn = [k for k, ops in counters.items() if sorted(ops) == ["++", "--"] and "unsigned long" in (P.d(k).get("t") or "") or sorted(ops) == ["++", "--"]]
+    rets = [y for y in F.walk() if y.get("k") == "ReturnStmt" and y.get("c") and sc(y["c"][0]).get("k") not in ("CXXBoolLiteralExpr",)]
+    okw = False
+    if len(wn) == 1 and len(rets) == 1:
+        rv = sc(rets[0]["c"][0])
+        okw = rv.get("k") == "BinaryOperator" and rv.get("op") == "!=" and astq.is_ref_to(rv["c"][0], wn[0]) and sc(rv["c"][1]).get("v") == 0
+    if okw:
+        rep.ok(rule, "signed crossing count (winding number): ++ on upward, -- on downward crossings, inside iff the count != 0", F.loc, F.qn)
+    else:
+        rep.violation(rule, "the crossings are not counted as a winding number (one counter with ++ and --, result `count != 0`): counters %s, result %s" % (
+            sorted(counters.values()), R(rets[0]["c"][0])[:40] if rets else "?"), F.loc, F.qn, "",
+            "an even-odd (parity) count differs from the winding number wherever the outline winds around a point twice",
+            key=rule + "|winding", witness="a self-overlapping outline (pentagram): its core has winding number 2")
     for idx, x in enumerate(online):
         side = ("upward", "downward")[idx]
         ifs = [y for y in F.walk(x["c"][1]) if y.get("k") == "IfStmt"]
